@@ -312,7 +312,7 @@ func (o *OracleC13) After(x *Exec, op *Op, res *Res) {
 	w := x.W
 	now := pendingRewards(w, x.Ctx)
 	for _, dn := range post.AssetOrder {
-		if degenerateAsset(post, dn) || degenerateAsset(pre, dn) || orphanedValidator(post, dn) || orphanedValidator(pre, dn) {
+		if x.PrecisionCollapsed(dn) || degenerateAsset(post, dn) || degenerateAsset(pre, dn) || orphanedValidator(post, dn) || orphanedValidator(pre, dn) {
 			// Listed finding F-C04a: an asset with staked total but no validator shares (100% slash
 			// of every holder) is treated by the module as fully staked on EVERY validator and
 			// absorbs a share of every validator's rewards. Entitlements are not judged there.
@@ -622,6 +622,14 @@ func (o *OracleC12) After(x *Exec, op *Op, res *Res) {
 	}
 	if o.tainted {
 		return
+	}
+	for _, dn := range s.AssetOrder {
+		if x.PrecisionCollapsed(dn) {
+			// listed finding F-C04a: claim weights (token values) of this asset are not meaningful any more
+			x.KnownFinding("F-C04a")
+			x.Label("excluded:c12-precision-collapsed")
+			return
+		}
 	}
 	// allowance consumed by the claims this step really paid
 	if o.hist == nil {
